@@ -371,7 +371,8 @@ def _run(case, obs, root):
     if case.get("extra"):
         import datetime
 
-        cfg2 = R.make_config(root, "race-0002", ts=R.RACE_TS + datetime.timedelta(days=1))
+        # (race ids are free text with --race-id: the later race's id starts with the earlier one's, like nightly-1 and nightly-10)
+        cfg2 = R.make_config(root, "race-00010", ts=R.RACE_TS + datetime.timedelta(days=1))
         gs2 = metrics.GlobalStats(case["extra"])
         race2 = R.make_race(cfg2, trk, challenge)
         race2.add_results(gs2)
@@ -380,7 +381,7 @@ def _run(case, obs, root):
         _check_roundtrip(cfg2, race2, gs2, obs, "structure")
         # the first race is still there and unchanged
         both = metrics.FileRaceStore(cfg2).list()
-        obs.check(sorted(r.race_id for r in both) == ["race-0001", "race-0002"], "roundtrip/not-listed", f"list returns {[r.race_id for r in both]}")
+        obs.check(sorted(r.race_id for r in both) == ["race-0001", "race-00010"], "roundtrip/not-listed", f"list returns {[r.race_id for r in both]}")
         first = metrics.FileRaceStore(cfg2).find_by_race_id("race-0001")
         obs.check(_norm(metrics.GlobalStats(first.results).as_dict()) == _norm(stats.as_dict()), "roundtrip/global", "first race changed after storing a second one")
         obs.cls("extra-results")
